@@ -323,3 +323,69 @@ pub fn sfs_dead_stdout(ctx: &Ctx, args: &[&str], stdin: &[u8], kind: &str) -> Ru
     let out = child.wait_with_output().expect("wait");
     Run { code: out.status.code(), stdout: Vec::new(), stderr: String::from_utf8_lossy(&out.stderr).into_owned() }
 }
+
+/// Like `sfs`, with the working directory of the child set to `dir` (relative file names are then relative to it).
+pub fn sfs_in_dir(ctx: &Ctx, args: &[&str], stdin: Option<&[u8]>, dir: &str) -> Run {
+    let mut cmd = Command::new(&ctx.sfs_bin);
+    cmd.args(args).current_dir(dir).env("SFS_ALLOW_STDIN", "1").env_remove("RUST_BACKTRACE").env_remove("RUST_LOG")
+        .stdout(Stdio::piped()).stderr(Stdio::piped()).stdin(if stdin.is_some() { Stdio::piped() } else { Stdio::null() });
+    let mut child = cmd.spawn().unwrap_or_else(|e| panic!("cannot run {}: {e}", ctx.sfs_bin));
+    if let Some(bytes) = stdin {
+        let mut si = child.stdin.take().unwrap();
+        let bytes = bytes.to_vec();
+        std::thread::spawn(move || { let _ = si.write_all(&bytes); });
+    }
+    let out = child.wait_with_output().expect("wait");
+    Run { code: out.status.code(), stdout: out.stdout, stderr: String::from_utf8_lossy(&out.stderr).into_owned() }
+}
+
+/// Run with a SECONDARY input (e.g. the file named by --samples-file) delivered through a named pipe at `fifo`; `args` already
+/// name that path.  Same protocol as `sfs_fifo`: our handle is closed once the reader has drained the pipe or the child is gone.
+pub fn sfs_side_fifo(ctx: &Ctx, args: &[&str], fifo: &str, content: &[u8], stdin: Option<&[u8]>) -> Option<Run> {
+    use std::os::fd::AsRawFd;
+    let _ = std::fs::remove_file(fifo);
+    if !Command::new("mkfifo").arg(fifo).status().map(|s| s.success()).unwrap_or(false) {
+        return None;
+    }
+    let mut w = std::fs::OpenOptions::new().read(true).write(true).open(fifo).ok()?;
+    unsafe {
+        let fl = libc::fcntl(w.as_raw_fd(), libc::F_GETFL);
+        libc::fcntl(w.as_raw_fd(), libc::F_SETFL, fl | libc::O_NONBLOCK);
+    }
+    let mut cmd = Command::new(&ctx.sfs_bin);
+    cmd.args(args).env("SFS_ALLOW_STDIN", "1").env_remove("RUST_BACKTRACE").env_remove("RUST_LOG")
+        .stdout(Stdio::piped()).stderr(Stdio::piped()).stdin(if stdin.is_some() { Stdio::piped() } else { Stdio::null() });
+    let mut child = cmd.spawn().ok()?;
+    if let Some(bytes) = stdin {
+        let mut si = child.stdin.take().unwrap();
+        let bytes = bytes.to_vec();
+        std::thread::spawn(move || { let _ = si.write_all(&bytes); });
+    }
+    let gone = std::sync::Arc::new(std::sync::atomic::AtomicBool::new(false));
+    let gone_w = gone.clone();
+    let data = content.to_vec();
+    let writer = std::thread::spawn(move || {
+        let mut off = 0;
+        while off < data.len() && !gone_w.load(std::sync::atomic::Ordering::Relaxed) {
+            match w.write(&data[off..]) {
+                Ok(n) => off += n,
+                Err(e) if e.kind() == std::io::ErrorKind::WouldBlock || e.kind() == std::io::ErrorKind::Interrupted => std::thread::sleep(std::time::Duration::from_millis(1)),
+                Err(_) => break,
+            }
+        }
+        loop {
+            let mut pending: libc::c_int = 0;
+            let rc = unsafe { libc::ioctl(w.as_raw_fd(), libc::FIONREAD, &mut pending) };
+            if rc != 0 || pending == 0 || gone_w.load(std::sync::atomic::Ordering::Relaxed) {
+                break;
+            }
+            std::thread::sleep(std::time::Duration::from_millis(1));
+        }
+        drop(w);
+    });
+    let out = child.wait_with_output().ok()?;
+    gone.store(true, std::sync::atomic::Ordering::Relaxed);
+    let _ = writer.join();
+    let _ = std::fs::remove_file(fifo);
+    Some(Run { code: out.status.code(), stdout: out.stdout, stderr: String::from_utf8_lossy(&out.stderr).into_owned() })
+}
